@@ -47,7 +47,7 @@ def run(ctx):
                 "compared. Programs: examples + programs embedded in the test sources that load one module only "
                 "(<= 0.5 s CPU), seeded control-flow programs. Strings: %s values of length <= 4 over {\" \\ space TAB "
                 "LF CR n r t é} that a literal can denote, escaped + raw rendering, as print operand, map key and "
-                "assert-== operand; batches of 200 bisected to single literals. Opcode table: all names of BIN_TO_REPR x "
+                "assert-== operand; batches of 200 bisected to single literals (one evaluation = one (value, rendering, role) case decided, up to 200 share one pair of executions). Opcode table: all names of BIN_TO_REPR x "
                 "{no argument, quoted, bare, quoted with space}. Distinct non-trivial = distinct program with >= 5 "
                 "instructions compared, distinct (role, string) with >= 1 character other than n/r/t, distinct "
                 "(instruction name, argument form)."
